@@ -444,9 +444,11 @@ pub enum WildCell {
     PlusOne,
     /// strictly the largest cell of its row (row maximum + 1)
     RowMaxPlus,
+    /// NaN (only under backgrounds that never draw the wildcard: the column must not matter)
+    NotANumber,
 }
 
-pub const HAND_CONFIGS: [(&str, [usize; 5], WildCell); 11] = [
+pub const HAND_CONFIGS: [(&str, [usize; 5], WildCell); 13] = [
     ("uniform, N=-inf", [1, 1, 1, 1, 0], WildCell::NegInf),
     ("nonuniform(.1,.2,.3,.4,0), N=-inf", [1, 2, 3, 4, 0], WildCell::NegInf),
     ("wildcard(.2,.3,.1,.3,.1), N=row minimum", [2, 3, 1, 3, 1], WildCell::RowMin),
@@ -465,6 +467,10 @@ pub const HAND_CONFIGS: [(&str, [usize; 5], WildCell); 11] = [
     ("zero-frequency symbol(.5,0,.25,.25,0), N=-inf", [2, 0, 1, 1, 0], WildCell::NegInf),
     // a symbol that is possible but rarer than f32::EPSILON (2^-24)
     ("tiny frequency(.5,.25,.25-2^-24,2^-24,0), N=-inf", [8388608, 4194304, 1, 4194303, 0], WildCell::NegInf),
+    // three symbols of frequency 2^-44: words of three rare symbols weigh 2^-132 (below the smallest normal f32)
+    ("extreme skew(2^-44 x3, rest), N=-inf", [1, 1, 17592186044413, 1, 0], WildCell::NegInf),
+    // a NaN wildcard column under a background that never draws the wildcard
+    ("uniform, N=NaN (never drawn)", [1, 1, 1, 1, 0], WildCell::NotANumber),
 ];
 
 pub fn hand(hi: usize, ci: usize) -> Mat {
@@ -479,6 +485,7 @@ pub fn hand(hi: usize, ci: usize) -> Mat {
                 WildCell::Zero => 0.0,
                 WildCell::PlusOne => 1.0,
                 WildCell::RowMaxPlus => r.iter().cloned().fold(f32::NEG_INFINITY, f32::max) + 1.0,
+                WildCell::NotANumber => f32::NAN,
             };
             [r[0], r[1], r[2], r[3], n]
         })
@@ -543,7 +550,7 @@ pub fn menu_text(widths: &[usize], windows: &dyn Fn(usize) -> usize, pseudos: &[
 pub fn hand_text() -> String {
     let names: Vec<&str> = hand_rows().iter().map(|h| h.0).collect();
     format!(
-        "{} hand matrices ({}: integers, halves, tenths, narrow range, narrow range with offset, constant (small == large branch), constant rows, offset drift, frozen log-odds cells, wide range) x {} wildcard/background configurations (uniform N=-inf; (.1,.2,.3,.4,0) N=-inf; (.2,.3,.1,.3,.1) N=row minimum; (.2,.3,.1,.3,.1) N=-inf; (.1,.2,.3,.4,0) N=0.0; (.1,.2,.3,.4,0) N=+1.0; skewed (2^-10,2^-10,1-3*2^-10,2^-10,0) N=-inf: tails below machine epsilon; very skewed (2^-14 x3) N=-inf; (.2,.3,.1,.3,.1) N=row maximum + 1; (.5,0,.25,.25,0) with a zero-frequency symbol N=-inf; a symbol of frequency 2^-24 N=-inf)",
+        "{} hand matrices ({}: integers, halves, tenths, narrow range, narrow range with offset, constant (small == large branch), constant rows, offset drift, frozen log-odds cells, wide range) x {} wildcard/background configurations (uniform N=-inf; (.1,.2,.3,.4,0) N=-inf; (.2,.3,.1,.3,.1) N=row minimum; (.2,.3,.1,.3,.1) N=-inf; (.1,.2,.3,.4,0) N=0.0; (.1,.2,.3,.4,0) N=+1.0; skewed (2^-10,2^-10,1-3*2^-10,2^-10,0) N=-inf: tails below machine epsilon; very skewed (2^-14 x3) N=-inf; (.2,.3,.1,.3,.1) N=row maximum + 1; (.5,0,.25,.25,0) with a zero-frequency symbol N=-inf; a symbol of frequency 2^-24 N=-inf; three symbols of frequency 2^-44 N=-inf; uniform with a NaN wildcard column)",
         names.len(),
         names.join(" "),
         HAND_CONFIGS.len()
